@@ -1073,6 +1073,18 @@ impl<'a> Runner<'a> {
         if snap.free_runs.len() > 1 {
             self.stats.hit("partition_fragmented");
         }
+        if self.stats.has("flush_out_of_space") {
+            self.stats.hit("partition_after_out_of_space");
+        }
+        if snap.records.is_empty() {
+            // a device emptied by deletes: the whole data area must be one free run again
+            if snap.free_runs != vec![(16, total - 16)] {
+                return Err(self.fail("partition", "emptied-device-not-fully-free", step, format!("all keys are deleted and flushed but the free pool is {:?} instead of the whole data area 16+{}", snap.free_runs, total - 16)));
+            }
+            if self.stats.has("multi_block_write") {
+                self.stats.hit("emptied_device_fully_free");
+            }
+        }
         let mut now_extents: HashMap<Vec<u8>, (u64, u64)> = HashMap::new();
         for r in &snap.records {
             now_extents.insert(r.key.clone(), (r.sector, layout::record_blocks(ver, r.key.len(), r.value_len) as u64));
